@@ -312,9 +312,14 @@ def zernike_fit(opd, mask, modes, normalize=True, rho=None, theta=None):
     # the fit is over the samples inside the mask only; whatever the OPD array
     # holds elsewhere (a fill value, NaN) is not part of it
     inside = np.flatnonzero(mask)
-    basis = np.linalg.pinv(basis[:, inside])
+    values = opd.ravel()[inside]
+    values = values.astype(complex if np.iscomplexobj(values) else float)
 
-    return np.einsum('ij,i->j', basis, opd.ravel()[inside])
+    # solved as a least-squares problem (with the singular value cut-off of the
+    # pseudo-inverse this replaces): the coefficients times an explicitly
+    # formed pseudo-inverse reproduce the fitted component only to cond*eps,
+    # which zernike_remove then left behind for many modes on a sub-aperture
+    return np.linalg.lstsq(basis[:, inside].T, values, rcond=1e-15)[0]
 
 
 def zernike_remove(opd, mask, modes, rho=None, theta=None):
